@@ -39,8 +39,8 @@ THEOREMS = [f"NauyacaVerif.C06.{t}" for t in
              "wrapper_delivers", "wrapper_write_complete", "pump_delivers", "stdlib_delivers", "stdlib_flow_prefix", "stdlib_flow_complete", "stdlib_flow_unpaused", "backends_identical", "sizes_faithful",
              "old_wrapper_truncates")]
 LEAN_TARGETS = LEAN_TARGETS + ["NauyacaVerif.Props.Tr.PumpResponse"]
-TRANSLATED = ["pumpResponse", "resumeWriting", "pauseWriting", "connectionLost"]
-THEOREMS = THEOREMS + [f"NauyacaVerif.Translated.{t}" for t in ("pump_eq", "resume_eq", "pause_eq", "resume_reachable")]
+TRANSLATED = ["pumpResponse", "resumeWriting", "pauseWriting", "connectionLost", "sendResponse"]
+THEOREMS = THEOREMS + [f"NauyacaVerif.Translated.{t}" for t in ("pump_eq", "resume_eq", "pause_eq", "resume_reachable", "send_eq", "send_reachable")]
 EXTRACT = ["recvSizes", "wrapperUsesSendall", "defaultMaxFileSize"]
 EXTRACT_EXPECT = {"wrapperUsesSendall": True, "recvSizes": [8192]}
 LEVEL_TEXT = "partial"
